@@ -76,7 +76,8 @@ Inductive reducer :=
 | RLast (n : Z)
 | ROne
 | RSum                     (* Reduce with + from 0 *)
-| REqualSelf.              (* Equal(p, p') on two independent copies of the pipeline *)
+| REqualSelf               (* Equal(p, p') on two independent copies of the pipeline *)
+| REqual (others : list pz). (* iterator.Equal(p, others...) on independent pipelines (iterators only) *)
 
 Inductive program :=
 | Steps (ops : list cop)
